@@ -205,7 +205,8 @@ class GrammarGen:
             if rnd.random() < self.o.p_memo * 0.5:
                 dirs.append("@memoize")
             if not pos and rnd.random() < self.o.p_hooks * 0.5:
-                dirs.append("@check(%s%s)" % (self.hookpath, rnd.choice(["chk_str_short", "chk_str_noa", "chk_true"])))
+                for fn in rnd.sample(["chk_str_short", "chk_str_noa", "chk_true"], rnd.choice([1, 1, 2])):
+                    dirs.append("@check(%s%s)" % (self.hookpath, fn))
             rnd.shuffle(dirs)
             r = Rule(name, dirs=dirs, body=body)
             self.rules_leaf.append(r)
@@ -219,7 +220,7 @@ class GrammarGen:
         # @char rules
         checks = []
         if rnd.random() < self.o.p_hooks:
-            checks = ["crate::hooks::" + rnd.choice(["chk_lower", "chk_not_x"])]
+            checks = ["crate::hooks::" + c for c in rnd.sample(["chk_lower", "chk_not_x"], rnd.choice([1, 2, 2]))]
         parts = [("r", "a", "f")] + ([("c", "é")] if mb else []) + [("c", "x")]
         self.rules_leaf.append(Rule("Lc", kind="char", parts=parts, checks=checks))
         self.leaves.append("Lc")
